@@ -21,6 +21,7 @@ From V Require Import Gen.CmGen Model.Cm Spec.CmSpec.
 From V Require Import Spec.SourcePos Spec.SourcePosKnown.
 From V Require Import Spec.Doc.
 From V Require Import Gen.Consts Model.Caps.
+From V Require Import Gen.Special Model.Special Spec.Triggers.
 Extraction Language OCaml.
 Set Extraction KeepSingleton.
 
@@ -212,4 +213,11 @@ Extraction "model.ml"
   Caps.feed_rows
   Caps.open_header
   Caps.row_cells
+  Triggers.c13_feature_names
+  Triggers.c13_triggers
+  Triggers.c13_free_of
+  Triggers.c13_free_of_heads
+  Special.c13_find_special
+  Special.c13_select_arm
+  Special.c13_tables
 .
